@@ -14,7 +14,8 @@ TYPES = [("int", {"int": {}}), ("integer", {"integer": {}}), ("bigint", {"bigint
          ("double precision", {"double_precision": {}}), ("VARCHAR(7)", {"varchar": 7}), ("Timestamp", {"timestamp": {}})]
 OPTS = [("not null", "nullable", False), ("null", "nullable", True), ("unique", "unique", True), ("primary key", "primary_key", True), ("default 5", "default", 5), ("default null", "default", {"null": {}}),
         ("default 'x'", "default", {"literal": "x"}), ("check (%(c)s > 1)", "check", None), ("references u(x)", "references", {"table": "u", "columns": "x"}), ("auto_increment", "auto_increment", True),
-        ("comment 'c'", "comment", {"literal": "c"}), ("collate utf8", "collate", "utf8"), ("default current_timestamp", "default", "current_timestamp")]
+        ("comment 'c'", "comment", {"literal": "c"}), ("collate utf8", "collate", "utf8"), ("default current_timestamp", "default", "current_timestamp"), ("not enforced", "enforced", False),
+        ("default ''", "default", {"literal": ""}), ("default 0", "default", 0), ("default false", "default", False)]
 
 
 class D:
@@ -48,6 +49,14 @@ class D:
             col = {"name": cname, "type": tyt}
             s = csql + " " + ty
             used = set()
+            charset_later = None
+            if ty.lower().startswith(("varchar(", "char(", "nvarchar(", "text")) and self.r.random() < 0.35:
+                cs = self.r.choice(["utf8", "latin1", "utf8mb4"])
+                col["character_set"] = cs
+                if self.r.random() < 0.6:
+                    s += " character set " + cs
+                else:
+                    charset_later = cs
             prev = None
             for o, key, val in self.r.sample(OPTS, self.r.choice([0, 0, 1, 1, 2, 3])):
                 if key in used or (key == "collate" and prev == "default"):     # DEFAULT x COLLATE y is the operator COLLATE applied to x
@@ -60,6 +69,8 @@ class D:
                 else:
                     s += " " + o
                     col[key] = val
+            if charset_later:
+                s += " character set " + charset_later
             cols_sql.append(s)
             cols.append(col)
         cons_sql, cons = [], []
